@@ -18,7 +18,13 @@ Definition normal_chunk_ok (c : chunk line) : Prop :=
   1 <= LStart c /\ 1 <= RStart c /\ Forall normal_edit_ok (edits c).
 Definition normal_ok (cs : list (chunk line)) : Prop := Forall normal_chunk_ok cs.
 
-Definition edit_lines_nf (e : edit line) : Prop := Forall newline_free (X e) /\ Forall newline_free (Y e).
+(* the lines an edit contributes to the text (the fields its operation uses) have no newline *)
+Definition edit_lines_nf (e : edit line) : Prop :=
+  match eop e with
+  | Drop | Emit => Forall newline_free (X e)
+  | Copy => Forall newline_free (Y e)
+  | Replace => Forall newline_free (X e) /\ Forall newline_free (Y e)
+  end.
 Definition chunk_lines_nf (c : chunk line) : Prop := Forall edit_lines_nf (edits c).
 Definition lines_nf (cs : list (chunk line)) : Prop := Forall chunk_lines_nf cs.
 
@@ -102,7 +108,7 @@ Proof.
       rewrite read_normal_range_dspan by lia.
       rewrite read_normal_range_r_itoa.
       rewrite read_edit_lt. rewrite read_edit_stop by exact Htail. cbn [app].
-      unfold read_normal_del_rlo, read_normal_want_add, read_normal_want_del.
+      unfold read_normal_del_rlo, read_normal_want_add, read_normal_want_del, read_normal_chunk_lstart, read_normal_chunk_lend, read_normal_chunk_rstart, read_normal_chunk_rend.
       cbn [andb negb].
       replace (llen (X e) =? lpos + llen (X e) - lpos) with true by (symmetry; apply Z.eqb_eq; lia).
       cbn [negb andb]. rewrite andb_false_r. cbn [andb].
@@ -133,7 +139,7 @@ Proof.
       rewrite read_normal_range_r_dspan by lia.
       rewrite (read_edit_gt (Y e) tail [] [] false) by (left; reflexivity).
       rewrite read_edit_stop by exact Htail. cbn [app].
-      unfold read_normal_add_llo, read_normal_want_add, read_normal_want_del.
+      unfold read_normal_add_llo, read_normal_want_add, read_normal_want_del, read_normal_chunk_lstart, read_normal_chunk_lend, read_normal_chunk_rstart, read_normal_chunk_rend.
       replace (llen (Y e) =? rpos + llen (Y e) - rpos) with true by (symmetry; apply Z.eqb_eq; lia).
       cbn [negb andb]. rewrite andb_false_r. cbn [andb].
       replace (lpos - 1 + 1) with lpos by lia.
@@ -162,7 +168,7 @@ Proof.
       rewrite read_edit_lt. rewrite read_edit_sep.
       rewrite (read_edit_gt (Y e) tail ([] ++ X e) [] true) by (right; reflexivity).
       rewrite read_edit_stop by exact Htail. cbn [app].
-      unfold read_normal_want_add, read_normal_want_del.
+      unfold read_normal_want_add, read_normal_want_del, read_normal_chunk_lstart, read_normal_chunk_lend, read_normal_chunk_rstart, read_normal_chunk_rend.
       replace (llen (Y e) =? rpos + llen (Y e) - rpos) with true by (symmetry; apply Z.eqb_eq; lia).
       replace (llen (X e) =? lpos + llen (X e) - lpos) with true by (symmetry; apply Z.eqb_eq; lia).
       cbn [negb andb].
@@ -178,7 +184,7 @@ Qed.
 Lemma normal_lines_head cs : forall rest, head_stops rest -> head_stops (normal_lines cs ++ rest).
 Proof.
   induction cs as [|c cs IH]; intros rest Hr; [exact Hr|].
-  unfold normal_lines in *. cbn [flat_map]. rewrite <- app_assoc.
+  unfold normal_lines, normal_chunk_lines, normal_lpos_init, normal_rpos_init in *. cbn [flat_map]. rewrite <- app_assoc.
   apply normal_edits_head. apply IH. exact Hr.
 Qed.
 
@@ -189,7 +195,7 @@ Proof.
   induction cs as [|c cs IH]; intros acc fuel Hok Hfuel.
   - destruct fuel; [cbn in Hfuel; lia|]. cbn. rewrite app_nil_r. reflexivity.
   - inversion Hok as [|? ? (Hl & Hr & He) Hok']; subst.
-    unfold normal_lines, normal_normalise in *. cbn [flat_map] in *.
+    unfold normal_lines, normal_chunk_lines, normal_lpos_init, normal_rpos_init, normal_normalise in *. cbn [flat_map] in *.
     assert (Hh : head_stops (flat_map (fun c => normal_edits (edits c) (LStart c) (RStart c)) cs)).
     { pose proof (normal_lines_head cs [] I) as H. rewrite app_nil_r in H. exact H. }
     destruct (read_normal_edits (edits c) (LStart c) (RStart c)
@@ -224,8 +230,8 @@ Lemma normal_edits_nf es : forall lpos rpos,
   Forall edit_lines_nf es -> Forall newline_free (normal_edits es lpos rpos).
 Proof.
   induction es as [|e es IH]; intros lpos rpos H; [constructor|].
-  inversion H as [|? ? (Hx & Hy) H']; subst. cbn [normal_edits].
-  destruct (eop e).
+  inversion H as [|? ? He H']; subst. cbn [normal_edits]. unfold edit_lines_nf in He.
+  destruct (eop e); [pose proof He as Hx | | pose proof He as Hy | destruct He as (Hx & Hy)].
   - constructor.
     + apply nf_app; [apply span_bytes_nf, dspan_span|].
       apply nf_cons; [discriminate | apply span_bytes_nf, itoa_span].
@@ -246,7 +252,7 @@ Qed.
 Lemma normal_lines_nf cs : lines_nf cs -> Forall newline_free (normal_lines cs).
 Proof.
   induction 1 as [|c cs Hc _ IH]; [constructor|].
-  unfold normal_lines in *. cbn [flat_map]. apply Forall_app. split; [|exact IH].
+  unfold normal_lines, normal_chunk_lines, normal_lpos_init, normal_rpos_init in *. cbn [flat_map]. apply Forall_app. split; [|exact IH].
   apply normal_edits_nf. exact Hc.
 Qed.
 
@@ -264,7 +270,7 @@ Lemma normal_norm_edits_format es : forall lpos rpos,
   normal_lines (normal_norm_edits es lpos rpos) = normal_edits es lpos rpos.
 Proof.
   induction es as [|e es IH]; intros lpos rpos; [reflexivity|].
-  cbn [normal_edits normal_norm_edits]. unfold normal_lines in *.
+  cbn [normal_edits normal_norm_edits]. unfold normal_lines, normal_chunk_lines, normal_lpos_init, normal_rpos_init in *.
   destruct (eop e) eqn:Eop; cbn [flat_map edits LStart RStart normal_edits eop X Y].
   - rewrite IH. unfold normal_drop_lpos. rewrite app_nil_r. reflexivity.
   - rewrite IH. reflexivity.
@@ -276,6 +282,6 @@ Qed.
 Theorem normal_reformat cs : normal (normal_normalise cs) = normal cs.
 Proof.
   unfold normal. f_equal. induction cs as [|c cs IH]; [reflexivity|].
-  unfold normal_normalise, normal_lines in *. cbn [flat_map]. rewrite flat_map_app.
+  unfold normal_normalise, normal_lines, normal_chunk_lines, normal_lpos_init, normal_rpos_init in *. cbn [flat_map]. rewrite flat_map_app.
   rewrite IH. f_equal. apply normal_norm_edits_format.
 Qed.
